@@ -416,6 +416,10 @@ class Gen:
         return src
 
     def program(self):
+        return "\n".join(self.program_parts())
+
+    def program_parts(self):
+        """the top-level declarations, one string each (main last)"""
         r = self.rng
         parts = []
         for i in range(r.randrange(0, 4)):
@@ -427,4 +431,4 @@ class Gen:
                 parts.append(self.qfunction())
         main = "function main() -> void " + self.block({}, 2, {}, n=r.randrange(*self.main_len), ret="void")
         parts.append(main)
-        return "\n".join(parts)
+        return parts
